@@ -160,7 +160,7 @@ fn def_of(render: &str) -> HashMap<usize, usize> {
     .collect()
 }
 
-fn rn(src: &str, include_this: bool) -> String {
+fn rn(src: &str) -> String {
   let p = match parse(src) {
     None => return "syntax".to_string(),
     Some(p) => p,
@@ -177,8 +177,12 @@ fn rn(src: &str, include_this: bool) -> String {
   // produce the same text; the expensive checks run once per binding
   let mut per_def: HashMap<usize, String> = HashMap::new();
   for (k, (locid, name, _, pos)) in p.occ.iter().enumerate() {
-    if (name == "this") != include_this {
-      continue; // `this` is not a user variable; probed separately (finding C15-F1)
+    if name == "this" {
+      // `this` is bound by the class, not by an identifier: rename must be refused (C15-F1, fixed)
+      if let Some(t) = rewrite::rename(&mut state, &mref, *pos, "zqthis") {
+        return format!("FAIL rename-of-this-not-refused occ={} name=this new=zqthis {}", locid, hex(t.as_bytes()));
+      }
+      continue;
     }
     let def = *defs.get(locid).unwrap_or(locid);
     let new_name = format!("zq{def}");
@@ -240,8 +244,7 @@ fn main() {
     let r = catch_unwind(AssertUnwindSafe(|| match t[0] {
       "ssa" => ssa(&arg),
       "q" => q(&arg),
-      "rn" => rn(&arg, false),
-      "rnthis" => rn(&arg, true),
+      "rn" => rn(&arg),
       _ => "bad-op".to_string(),
     }));
     match r {
